@@ -1,11 +1,12 @@
 """Per-property configuration for the generic Verus-unit plugin."""
 
+DERIVE_ALLOWED = r'^Partial(Eq|Ord)SpecImpl for impl vstd::std_specs::cmp::Partial(Eq|Ord)SpecImpl for (Rank|Suit|Card|CardPair|RankPair|MadeHand)$'
 DERIVE = '#[derive(PartialEq)] on Rank/Suit/Card/CardPair is structural equality (PartialEqSpecImpl axioms in the unit)'
 
 CONFIG = {
     'C03': dict(
         unit='showdown',
-        allowed=[r'^external_body pub fn from', r'^assume_specification pub assume_specification<T> \[<\[T\]>',
+        allowed=[DERIVE_ALLOWED, r'^external_body pub fn from', r'^assume_specification pub assume_specification<T> \[<\[T\]>',
                  r'^uninterp spec pub uninterp spec fn (class7|tables_ok)'],
         stubs=['MadeHand::from  (contracts/made_hand_from.vc, proved in unit EVAL / C01)'],
         assumptions=[
@@ -28,8 +29,8 @@ CONFIG = {
 
 }
 
-ITER_ALLOWED = [r'^external_body pub fn (new|f32_mul)', r'^external_body (pub )?fn new', r'^assume_specification pub assume_specification<T> \[<\[T\]>',
-                r'^uninterp spec pub uninterp spec fn (class7|tables_ok|f32_mul_spec)', r'^broadcast axiom|^axiom pub broadcast axiom fn axiom_card_key_model']
+ITER_ALLOWED = [DERIVE_ALLOWED, r'^external_body pub fn (new|f32_mul|into_iter)', r'^assume_specification pub assume_specification<T, A', r'^external fn fmt|^external impl|verifier::external', r'axiom_cardpair_key_model', r'^assume_specification pub assume_specification<T> \[<\[T\]>',
+                r'^uninterp spec pub uninterp spec fn (class7|tables_ok|f32_mul_spec)', r'axiom_card_key_model']
 ITER_ASSUME = [
     DERIVE,
     'Card key model: derived Hash/Eq of Card agree (broadcast axiom), so vstd set semantics apply to HashSet<Card>',
@@ -38,7 +39,8 @@ ITER_ASSUME = [
     'R7: HashSet<Card, FxBuildHasher> replaced by HashSet<Card> (abstract set semantics hold for any deterministic hasher)',
     'R1 enumerate, R2/R10: f32 `*=` routed through f32_mul, an uninterpreted deterministic function (floats are NOT treated as reals)',
     'R8: Iterator::next re-hosted as an inherent method so that it can carry `requires wf(self)`',
-    'iterator constructor (FlopExhaustiveEvaluatorIterator::new) establishes wf(): deck = the 49 cards not on the flop in code order, entries = the ranges\' combos with two different cards each -- see constructor obligations in evidence',
+    'the iterator constructor FlopExhaustiveEvaluatorIterator::new is VERIFIED (deck = the 49 cards not on the flop in card-code order, entries = a duplicate-free listing of each range, wf()); assumed inside it: RankRange/SuitRange::into_iter yield the contiguous runs (Kani c13_rank_range*, c13_suit_range), <[T; N]>::try_from(Vec) succeeds iff the length is N (assume_specification; try_into() is spelled as the try_from it calls), precondition: fewer than 2^30 players (usize arithmetic of the capacity hint)',
+    'FlopExhaustiveEvaluator::new (field copies via Clone) is assumed and pinned to a fingerprint of its source; a change voids the assumption and triggers the failing-input search',
     'legal(c) is phrased as the code\'s materialisation test; lemma_legal_distinct (proved, Verus) shows it is exactly "all 5+2n cards of the deal are pairwise different"',
     'exactly-once (proved, Verus): lemma_succ_rank: one step raises cur_rank = position_index * prod(lens) + mixed_radix(idx) by exactly 1; lemma_cur_rank_inj: cur_rank is injective on valid cursors; lemma_orbit_covers: every valid cursor whose rank lies in [rank(start), rank(start)+k) is the (rank difference)-th element of the orbit. What stays on paper is only the composition with the stepper contract across successive next() calls (induction over calls)',
 ]
@@ -65,7 +67,7 @@ CONFIG['C08'] = dict(unit='iter', allowed=ITER_ALLOWED, assumptions=ITER_ASSUME,
     search=[['iter-search', '{seed}', '{n}', '{marker}', 'c08']], search_n={'quick': 240, 'thorough': 2400})
 
 CONFIG['C16'] = dict(unit='scopes',
-    allowed=[r'^external_body pub fn raw_cut'],
+    allowed=[DERIVE_ALLOWED, r'^external_body pub fn raw_cut'],
     assumptions=[
         'raw_cut (the f32 sqrt/floor/%/ceil formula) is external_body with NO postcondition: the tiling theorem holds for any pair of u8 it returns; floats are not modelled at all',
         'raw_cut\'s own freedom from u8 overflow/underflow (48 - turn_to, + turn_to + 1) depends on float behaviour and is NOT checked',
@@ -75,7 +77,7 @@ CONFIG['C16'] = dict(unit='scopes',
     samples=[{'obligation': 'calculate_scopes postcondition', 'clause': 'tiles(r@, count): len == count, first.from == (0,1), last.to == (48,49), every from/to a valid position or the terminal, from <=lex to, scope[k+1].from == scope[k].to'}],
     search=[['scopes-search', '{seed}', '{n}']], search_n={'quick': 20000, 'thorough': 60000})
 
-RANGE_ALLOWED = [r'^external_body pub fn (into_iter|f32_eq)', r'^uninterp spec pub uninterp spec fn f32_eq_spec', r'axiom_pair_key_models']
+RANGE_ALLOWED = [DERIVE_ALLOWED, r'^external_body pub fn (into_iter|f32_eq)', r'^uninterp spec pub uninterp spec fn f32_eq_spec', r'axiom_pair_key_models']
 CONFIG['C12'] = dict(unit='range', allowed=RANGE_ALLOWED,
     stubs=['RankPair::into_iter (contracts/rankpair_into_iter.vc: the 6/4/12 combos, proved on the real body in unit TOKEN)',
            'RankRange::into_iter (contiguous run of ranks; proved for all ordered endpoint pairs by Kani harness c13_rank_range)'],
@@ -99,7 +101,7 @@ CONFIG['C12'] = dict(unit='range', allowed=RANGE_ALLOWED,
 # multi-part properties
 from . import multi
 
-EVAL_ALLOWED = [r'^external_body pub const (REF_|AS_)']
+EVAL_ALLOWED = [DERIVE_ALLOWED, r'^external_body pub const (REF_|AS_)']
 
 
 def _v(unit, allowed, relevant=lambda f: True):
@@ -137,7 +139,7 @@ EXTRA_SEARCH = {
 # C05 / C09 / C10: range notation (Verus for token values / ranges / iterator, Kani for strings)
 from . import p_kani
 
-TOKEN_ALLOWED = [r'^external_body pub fn into_iter']
+TOKEN_ALLOWED = [DERIVE_ALLOWED, r'^external_body pub fn into_iter']
 TOK_MEANING = ['tok_meaning_pockets', 'tok_meaning_rank_pairs', 'tok_meaning_card_pair', 'tok_weight_carried', 'tok_ok_reachable']
 TOK_TOTAL_Q = ['tok_total_parse_6', 'tok_total_parse_6_multibyte', 'tok_total_parse_9', 'tok_total_parse_9_multibyte', 'tok_ok_reachable']
 TOK_TOTAL_T = TOK_TOTAL_Q + ['tok_total_parse_12', 'tok_total_parse_12_multibyte']
@@ -188,7 +190,7 @@ MULTI['C05'] = dict(
     ],
     search=[['c05-search', '{seed}', '{n}']], search_n={'quick': 3000, 'thorough': 30000})
 
-FMT_ALLOWED = [r'^external_body pub fn (into_iter|f32_eq|f32_ne|rank_pairs|orphan_card_pairs)', r'^uninterp spec pub uninterp spec fn f32_eq_spec', r'axiom_pair_key_models']
+FMT_ALLOWED = [DERIVE_ALLOWED, r'^external_body pub fn (into_iter|f32_eq|f32_ne|rank_pairs|orphan_card_pairs)', r'^uninterp spec pub uninterp spec fn f32_eq_spec', r'axiom_pair_key_models']
 
 MULTI['C09'] = dict(
     parts=[_k_card('CARD-STR', ['c09_rank_suit_card_from_str_4', 'c09_cardpair_from_str_6'], [STR_BOUND_Q]),
